@@ -119,6 +119,8 @@ pub struct World {
     /// Skip expensive checks not needed by the running property.
     pub want: BTreeSet<Class>,
     pub cleartexts: Vec<Vec<u8>>,
+    /// SUT ids of attributes that were disabled at the time of a successful update.
+    pub disabled_ids: BTreeSet<u64>,
 }
 
 fn qa(d: &str, a: &str) -> QualifiedAttribute {
@@ -180,6 +182,7 @@ impl World {
             state_hashes: vec![],
             want: want.iter().copied().collect(),
             cleartexts: vec![],
+            disabled_ids: BTreeSet::new(),
         })
     }
 
@@ -323,6 +326,37 @@ impl World {
         }
         for (c, w, d) in fails {
             self.fail(c, w, d);
+        }
+    }
+
+    /// No right published by `mpk` may contain the id of an attribute disabled before an update.
+    pub fn check_mpk_disabled_ids(&mut self, mpk: &MasterPublicKey, op: &str) {
+        if !self.wants(Class::MpkKeys) || self.disabled_ids.is_empty() {
+            return;
+        }
+        let Ok(bytes) = mpk.serialize() else { return };
+        let Ok(w) = wire::parse_mpk(&bytes) else {
+            self.stats.unobservable += 1;
+            return;
+        };
+        self.stats.check("mpk-disabled-ids");
+        for r in w.keys.keys() {
+            let mut rd = wire::Rd::new(r);
+            while rd.rest() > 0 {
+                match rd.leb() {
+                    Ok(id) => {
+                        if self.disabled_ids.contains(&id) {
+                            self.fail(
+                                Class::MpkKeys,
+                                format!("{op}/publishes-right-of-disabled-attribute"),
+                                format!("right {:?} contains disabled attribute id {id}", r),
+                            );
+                            return;
+                        }
+                    }
+                    Err(_) => break,
+                }
+            }
         }
     }
 
@@ -578,6 +612,23 @@ impl World {
                         self.check_msk_unchanged(&before, op, if model_ok { "unexpected" } else { cause }, Class::Unchanged);
                     }
                     Ok(mpk) => {
+                        if op == "update" {
+                            // ids of the attributes that are disabled when the MSK is updated
+                            let ids: Vec<u64> = self
+                                .auth
+                                .m
+                                .structure
+                                .dims
+                                .iter()
+                                .flat_map(|d| d.attrs.iter())
+                                .filter(|a| a.disabled)
+                                .filter_map(|a| self.auth.m.sut_ids.get(&a.ident).copied())
+                                .collect();
+                            self.disabled_ids.extend(ids);
+                        }
+                        // Model-independent invariant (C06): no MPK produced after disable+update
+                        // publishes a right containing a disabled attribute.
+                        self.check_mpk_disabled_ids(&mpk, op);
                         if model_ok {
                             self.auth.m = m2;
                             self.check_msk_shape(op);
